@@ -263,6 +263,12 @@ impl Ctx {
 
     /// Record a violation found outside proptest (exhaustive loops). Returns after writing the replay.
     pub fn violation(&self, sub: &str, fail: Fail, case: &Value) {
+        // problems of the machinery itself (a helper process that could not be spawned, a setup step that failed) are
+        // never reported as violations of the property: exit 2
+        if fail.sig.starts_with("harness") || (fail.sig == "panic" && fail.msg.starts_with("harness:")) {
+            self.inconclusive(format!("{sub}: {} {}", fail.sig, fail.msg));
+            return;
+        }
         // at most one violation per (sub, sig) is recorded
         if self
             .violations
